@@ -8,7 +8,8 @@
 From Coq Require Import List NArith ZArith Bool Arith Lia.
 From Coq Require Import Init.Byte.
 From FFS Require Import Base.Res Base.Bytes Abi.Types Abi.ModelTypes Abi.EntryModel Abi.EntrySpec.
-From FFS Require Import AbiType.Spec Abi.EntryProofs Abi.EntryProofsEvent.
+From FFS Require Import AbiType.Spec Abi.EntryProofs Abi.EntryProofsEvent Abi.EntryLink.
+From FFS Require AbiType.Syntax.
 Import ListNotations.
 
 (* 1. The signature is name(canonical type, ...): aliases expanded, tuples as parenthesised lists
@@ -195,6 +196,36 @@ Theorem C12_error_string :
 Proof. exact error_string_attributed. Qed.
 Print Assumptions C12_error_string.
 
+(* 8. From the ABI JSON to the signature: for an entry given by its parameter objects (type text +
+      components, parsed by the model of the type parser of C13 and embedded into the entry model),
+      whenever the i-th object spells the valid type ts[i] -- canonically, by an alias (uint, int,
+      fixed, ufixed), as "tuple" + components, with array suffixes -- the signature is
+      name(canonical ts[0],...), the selector its first four hash bytes, the topic the hash.
+      An entry with an object that spells no valid type has no signature. *)
+Theorem C12_signature_from_json :
+  forall (ty : etype) (name : bytes) (anonymous : bool) (ps : list (AbiType.Syntax.param * bool)) (ts : list Abi.Types.ty),
+    spells ps ts ->
+    Signature (link_entry ty name anonymous ps) = Ok (signature_spec name ts).
+Proof. exact signature_from_json. Qed.
+Print Assumptions C12_signature_from_json.
+
+Theorem C12_selector_from_json :
+  forall (H : bytes -> bytes) (ty : etype) (name : bytes) (anonymous : bool)
+         (ps : list (AbiType.Syntax.param * bool)) (ts : list Abi.Types.ty),
+    (forall m, length (H m) = 32%nat) -> spells ps ts ->
+    GenerateFunctionSelector H (link_entry ty name anonymous ps) = Ok (selector_spec H name ts) /\
+    SignatureHashBytes H (link_entry ty name anonymous ps) = topic0_spec H name ts.
+Proof. exact selector_from_json. Qed.
+Print Assumptions C12_selector_from_json.
+
+Theorem C12_signature_invalid_json :
+  forall (ty : etype) (name : bytes) (anonymous : bool) (ps : list (AbiType.Syntax.param * bool)),
+    Exists (fun pi => ~ exists t, valid_type t = true /\
+                         spelling t (AbiType.Syntax.p_type (fst pi)) (AbiType.Syntax.p_comps (fst pi))) ps ->
+    exists c, Signature (link_entry ty name anonymous ps) = Err c.
+Proof. exact signature_invalid_json. Qed.
+Print Assumptions C12_signature_invalid_json.
+
 (* ---------- non-vacuity ---------- *)
 From Coq Require Import String.
 From FFS Require Abi.EncModel Abi.DecModel Rlp.Model.
@@ -279,4 +310,20 @@ Proof.
   cbv zeta. split; [eexists; eexists; split; [vm_compute; reflexivity|split; vm_compute; reflexivity]|].
   split; [eexists; eexists; split; [vm_compute; reflexivity|split; vm_compute; reflexivity]|].
   eexists; split; vm_compute; reflexivity.
+Qed.
+
+(* f(uint, tuple[] {fixed, bytes32}) spelled with aliases: the signature expands them *)
+Example C12_from_json_nonvacuous :
+  let P := AbiType.Syntax.Param in
+  let ps := [(P (Sb "uint") [], false); (P (Sb "tuple[]") [P (Sb "fixed") []; P (Sb "bytes32") []], true)] in
+  let ts := [TUInt 256; TDynArr (TTuple [TFixed 128 18; TBytesN 32])] in
+  spells ps ts /\
+  Signature (link_entry TyFunction (Sb "f") false ps) = Ok (Sb "f(uint256,(fixed128x18,bytes32)[])").
+Proof.
+  cbv zeta. split.
+  - constructor; [split; [reflexivity|right; split; reflexivity]|].
+    constructor; [|constructor]. split; [reflexivity|].
+    exists (Sb "tuple"). split; [|reflexivity]. split; [reflexivity|].
+    split; [right; repeat split; reflexivity|]. split; [reflexivity|exact I].
+  - vm_compute. reflexivity.
 Qed.
